@@ -257,6 +257,18 @@ func importFields(c *Ctx, m string) {
 				v := st.Args[i]
 				n++
 				ok := false
+				// (a bare loop-carried alternative is the field's own value from the previous iteration: X = phi(A, X) is A)
+				if v.Op == "phi" {
+					var keep []*ir.Expr
+					for _, a := range v.Args {
+						if a.Op != "loop" {
+							keep = append(keep, a)
+						}
+					}
+					if len(keep) > 0 && len(keep) < len(v.Args) {
+						v = ir.MkPhi(keep)
+					}
+				}
 				leaf := v
 				for leaf.Op == "conv" {
 					leaf = leaf.Args[0]
